@@ -454,14 +454,17 @@ fn wide_line_polygon(a: (i8, i8), b: (i8, i8), width: u8) -> [(i32, i32); 4] {
 
 impl Op {
     /// Some edge of this shape is stroked through a zero-width polygon.
+    /// The line segments `draw_line` is called with, as ((y, x), (y, x)).
+    fn edges(&self) -> Vec<((i8, i8), (i8, i8))> {
+        match self {
+            Op::Line { y0, x0, y1, x1, .. } => vec![((*y0, *x0), (*y1, *x1))],
+            Op::Polygon { pts, .. } | Op::Painter { pts, .. } => (0..pts.len()).map(|i| (pts[i], pts[(i + 1) % pts.len()])).collect(),
+            _ => Vec::new(),
+        }
+    }
+
     fn hits_fill_iter_hang(&self) -> Option<[(i32, i32); 4]> {
-        let (edges, width): (Vec<((i8, i8), (i8, i8))>, u8) = match self {
-            Op::Line { y0, x0, y1, x1, width } => (vec![((*y0, *x0), (*y1, *x1))], *width),
-            Op::Polygon { pts, width } | Op::Painter { pts, width, .. } => {
-                ((0..pts.len()).map(|i| (pts[i], pts[(i + 1) % pts.len()])).collect(), *width)
-            }
-            _ => return None,
-        };
+        let (edges, width) = (self.edges(), self.width() as u8);
         if width < 2 {
             return None;
         }
@@ -585,7 +588,7 @@ fn check_draw(c: &DrawCase) -> Verdict {
 
     let show = |why: String| format!("{why}; image {h}x{w}, op {:?}, allowed pixel box (y0,y1,x0,x1) = {allowed:?}", c.op);
     let mut changed = 0u64;
-    let mut out_of_bounds: Option<(usize, i32, i32)> = None;
+    let mut out_of_bounds: Vec<(usize, i32, i32)> = Vec::new();
     let mut outside_shape = false;
     let mut painted = vec![false; h * w];
     for k in 0..channels {
@@ -611,8 +614,8 @@ fn check_draw(c: &DrawCase) -> Verdict {
                 }
                 changed += 1;
                 painted[y as usize * w + x as usize] = true;
-                if !in_box(allowed, y, x) && out_of_bounds.is_none() {
-                    out_of_bounds = Some((k, y, x));
+                if !in_box(allowed, y, x) {
+                    out_of_bounds.push((k, y, x));
                 }
                 if !in_box(sb, y, x) {
                     outside_shape = true;
@@ -620,10 +623,42 @@ fn check_draw(c: &DrawCase) -> Verdict {
             }
         }
     }
-    if let Some((k, y, x)) = out_of_bounds {
+    if let Some(&(k, y, x)) = out_of_bounds.first() {
+        // Root-cause class of the stray pixels. The only listed (known) class
+        // is `w1-endpoint-clamp`: draw_line with width 1 clamps the two end
+        // points of each edge to the image and rasterises the segment between
+        // the clamped points, so every stray pixel then lies in the bounding
+        // box of some edge's clamped end points. Anything else - any stroke
+        // width >= 2, or a width-1 pixel that no clamped edge explains - keeps
+        // an unlisted signature.
+        let class = match c.op.width() {
+            _ if matches!(c.op, Op::FillRect { .. } | Op::StrokeRect { .. }) => "rect".to_string(),
+            0 => "w0".to_string(),
+            1 => {
+                let clamp = |p: (i8, i8)| ((p.0 as i32).clamp(0, h as i32 - 1), (p.1 as i32).clamp(0, w as i32 - 1));
+                let boxes: Vec<PixBox> = c
+                    .op
+                    .edges()
+                    .iter()
+                    .map(|&(a, b)| {
+                        let (a, b) = (clamp(a), clamp(b));
+                        (a.0.min(b.0), a.0.max(b.0), a.1.min(b.1), a.1.max(b.1))
+                    })
+                    .collect();
+                if h > 0 && w > 0 && out_of_bounds.iter().all(|&(_, y, x)| boxes.iter().any(|&b| in_box(b, y, x))) {
+                    "w1-endpoint-clamp".to_string()
+                } else {
+                    "w1".to_string()
+                }
+            }
+            _ => "w>=2".to_string(),
+        };
         return Verdict::fail(
-            format!("draw:{name}{qual}:outside-shape-bounds"),
-            show(format!("pixel (y={y}, x={x}) of channel {k} was changed but lies outside the shape's bounding box dilated by the stroke width")),
+            format!("draw:{name}{qual}:outside-shape-bounds:{class}"),
+            show(format!(
+                "pixel (y={y}, x={x}) of channel {k} (and {} more) was changed but lies outside the shape's bounding box dilated by the stroke width",
+                out_of_bounds.len() - 1
+            )),
         );
     }
     if let Err(p) = res {
@@ -758,9 +793,9 @@ fn main() {
         },
         oracle_mask,
     );
-    ck.prop("contours-random", ck.pick(60_000, 3_000_000), random_mask, oracle_mask);
-    ck.prop("contours-structured", ck.pick(120_000, 6_000_000), struct_mask, oracle_struct);
-    ck.prop("drawing", ck.pick(300_000, 15_000_000), draw_case, check_draw);
-    ck.prop("fill-iter", ck.pick(100_000, 5_000_000), fill_case, check_fill_iter);
+    ck.prop("contours-random", ck.pick(400_000, 4_000_000), random_mask, oracle_mask);
+    ck.prop("contours-structured", ck.pick(800_000, 8_000_000), struct_mask, oracle_struct);
+    ck.prop("drawing", ck.pick(2_000_000, 20_000_000), draw_case, check_draw);
+    ck.prop("fill-iter", ck.pick(600_000, 6_000_000), fill_case, check_fill_iter);
     ck.finish();
 }
